@@ -3,7 +3,7 @@
    [resolve] is the repaired resolution algorithm (branch fix-C06-specifier-ties), [resolve_old] the
    algorithm as found in round 0; both are step-by-step models of Constructible._resolveSpecifiers. *)
 From Coq Require Import ZArith NArith List Bool Lia Permutation.
-From Scenic Require Import C06.Specifier C06.SpecifierProofs C06.MoreProofs.
+From Scenic Require Import C06.Specifier C06.SpecifierProofs C06.MoreProofs C06.Modifiable.
 Import ListNotations.
 Open Scope Z_scope.
 
@@ -201,3 +201,41 @@ Theorem C06_three_modifiers_error_order_dependent_refuted :
   ~ is_err (resolve [mN; mB; mA; mC] [] []).
 Proof. exact three_modifiers_error_order_dependent. Qed.
 Print Assumptions C06_three_modifiers_error_order_dependent_refuted.
+
+(* ---- Round 3: what a modifying specifier may touch.  Whatever the order and the number of modifying specifiers, a
+   property ends up *modified* only by a modifying specifier of the written list that lists the property in its own
+   modifiable set and itself mentions it with a priority number that does not beat the holder's; the property is then
+   held by somebody (there is a value to modify).  The modifiable sets themselves are table facts re-checked on every
+   run (gen/C06_SpecTable.v: modifiable_agrees_*, modifiable_within_prios_*, only_modifiers_modify_*, and
+   probe_behaviour_*: behaviour observed through public syntax = [probe_outcome] on the documented rows). *)
+Theorem C06_modifier_only_modifiable : forall fx specs defaults finals r p s,
+  resolve_gen fx specs defaults finals = OK r -> lookup (r_mods r) p = Some s ->
+  In s specs /\ is_mod s = true /\ In p (modifiable s) /\
+  exists k, In (p, k) (prios s) /\
+    exists s0 k0, lookup (r_props r) p = Some (s0, k0) /\ k0 <= k.
+Proof. exact modifier_only_modifiable. Qed.
+Print Assumptions C06_modifier_only_modifiable.
+
+Theorem C06_unmodifiable_never_modified : forall fx specs defaults finals r p,
+  resolve_gen fx specs defaults finals = OK r ->
+  (forall s, In s specs -> is_mod s = true -> ~ In p (modifiable s)) ->
+  lookup (r_mods r) p = None.
+Proof. exact unmodifiable_never_modified. Qed.
+Print Assumptions C06_unmodifiable_never_modified.
+
+(* the two-specifier probe evaluated by the kernel on the regenerated table speaks about the maps of [resolve] *)
+Theorem C06_probe_outcome_resolve : forall specs defaults r p,
+  resolve specs defaults [] = OK r ->
+  (probe_outcome specs p = 1%N <-> exists s, lookup (r_mods r) p = Some s).
+Proof. exact probe_outcome_resolve. Qed.
+Print Assumptions C06_probe_outcome_resolve.
+
+(* non-vacuity: `on` (position@1 modifiable, q@2 not) modifies the position given by `at` and leaves `with q` alone; a
+   table row that wrongly lists q as modifiable (seeded change C06-3) makes it overwrite the priority-1 value *)
+Example C06_modifiable_example :
+  (exists r, resolve [ex_on; ex_at; ex_withq] [] [] = OK r /\
+     lookup (r_mods r) 1%N = Some ex_on /\ lookup (r_mods r) 2%N = None) /\
+  (exists r, resolve [ex_on_bad; ex_at; ex_withq] [] [] = OK r /\ lookup (r_mods r) 2%N = Some ex_on_bad) /\
+  probe_outcome [ex_withq; ex_on] 2%N = 0%N /\ probe_outcome [ex_at; ex_on] 1%N = 1%N /\
+  probe_outcome [ex_withq; ex_on_bad] 2%N = 1%N.
+Proof. exact modifiable_example. Qed.
